@@ -6,7 +6,7 @@ use vcoll::sync::{Arc, AtomicCell};
 use vcoll::vvec::VVec;
 use vcoll::Havoc;
 
-pub use crate::specset::{Key, OrSWotSet};
+pub use crate::recset::{Key, OrSWotSet, RecOp};
 pub use crate::timestamp::HLCTimestamp;
 
 pub const NUM_SOURCES: usize = 2;
@@ -45,6 +45,12 @@ pub struct Spawned {
 }
 pub static mut SPAWNED: Option<VVec<Spawned>> = None;
 pub static mut NEXT_ID: u64 = 1000;
+/// ghost record of what the load_states STUB (caller unit) was handed: (name identity, state)
+pub struct Loaded {
+    pub name: u64,
+    pub state: OrSWotSet<NUM_SOURCES>,
+}
+pub static mut LOADED: Option<VVec<Loaded>> = None;
 
 /// environment step run at every former await point (clock read, actor spawn): other tasks
 /// of the node may run there. Installed by the C18 harness; a no-op otherwise.
@@ -108,7 +114,7 @@ pub trait Storage {
 
 pub const MAX_KS: usize = 2;
 pub const MAX_ROWS: usize = 2;
-pub const KS_NAMES: [&str; MAX_KS] = ["a", "b"];
+pub const KS_NAMES: [&str; 2] = ["a", "b"];
 
 /// what storage holds: per keyspace, up to MAX_ROWS metadata rows (id, stamp, tombstone flag)
 pub struct GhostStore {
@@ -117,6 +123,11 @@ pub struct GhostStore {
     pub rows: [[(Key, HLCTimestamp, bool); MAX_ROWS]; MAX_KS],
     pub fail_list: bool,
     pub fail_rows: [bool; MAX_KS],
+}
+impl GhostStore {
+    pub fn empty() -> Self {
+        GhostStore { n_ks: 0, n_rows: [0; MAX_KS], rows: [[(0, HLCTimestamp::from_u64(0), false); MAX_ROWS]; MAX_KS], fail_list: false, fail_rows: [false; MAX_KS] }
+    }
 }
 impl Storage for GhostStore {
     type Error = GhostError;
